@@ -390,7 +390,18 @@ def replay(case):
         mod = common.module(case['module'])
         args, kwargs = _chk.case_args(case)
         e = BY_LABEL.get(case.get('label'))
-        src, dst = case['number'], args[0]
+        dst = args[0]
+        src = case.get('number')
+        if src is None:
+            # entries written in the census shape carry only the accepted number: the relation is symmetric, so any
+            # valid neighbour of it (preferably one protected by the generic check) reproduces the pair
+            cands = [v for _k, _i, v in neighbours(dst, True) if _chk.call(mod.validate, v, **kwargs)[0] == 'ok']
+            es = [x for x in ENTRIES if x['module'] == case['module'] and x['generic']]
+            prot = [v for v in cands if all(x['generic'](v) for x in es)]
+            if not cands:
+                return None
+            src = (prot or cands)[0]
+            case = dict(case, number=src)
         if not _differs_by_one_edit(src, dst):
             return None
         o1 = _chk.call(mod.validate, src, **kwargs)
